@@ -17,10 +17,10 @@ type CtrlStep struct {
 	Cmd       int      `json:"cmd"`    // memcontrolprotocol.Command
 	Addresses []uint64 `json:"addresses,omitempty"`
 	PID       uint32   `json:"pid,omitempty"`
-	At        uint64   `json:"at,omitempty"`    // not before this time
-	AfterWork bool     `json:"after_work"`      // not before every requester finished
-	Wait      bool     `json:"wait"`            // wait for this step's ack before the next step
-	Mark      string   `json:"mark,omitempty"`  // harness callback label run when the ack arrives
+	At        uint64   `json:"at,omitempty"`   // not before this time
+	AfterWork bool     `json:"after_work"`     // not before every requester finished
+	Wait      bool     `json:"wait"`           // wait for this step's ack before the next step
+	Mark      string   `json:"mark,omitempty"` // harness callback label run when the ack arrives
 }
 
 // CtrlAck is one observed control response.
